@@ -385,3 +385,10 @@ CHECKS['C02']['text'] += (
     "any routing, discipline, server priority function, pre-emption none / resume / restart / resample) with the invariant Clk2pt = Clock2r's clauses + LinkB, the DATE link (every held customer's record names its server and node and has an end date e with server end date d <= e, so now <= d <= e and the time left "
     "stored by resume is >= 0); event_step_linkb / run_many_linkb (the link alone, no hypothesis on draws); clk2r_not_inductive_under_resume_refuted (without the link the clock invariant is not inductive under resume: time_left = -2, clock 8 -> 6 from a non-reachable state); function level for every configuration: "
     "preempt_tleft_partial, interrupt_service_tleft_partial, resume_end_not_past_partial. Pre-emptive Schedule resume is proved at function level only. clk2pt_b is evaluated on every real snapshot in the scope (bit clk2p).")
+CHECKS['C17']['text'] += (
+    " TrackerInc2.v (2 530 lines; Properties/C17_stage2.v) - the STAGE-2 engine model: an instrumented copy of the engine (the engine monad plus a writer of tracker calls; er_event_step proves that erasing the calls gives back Engine2.event_step, so the ghost "
+    "call list belongs to the real model run) with a call at every site node.py has one (accept, block_individual, release incl. release(reroute=True) from preempt / interrupt_service, renege -> change_state_renege, class change while waiting); "
+    "event_step_trackers2 / run_many_trackers2 / never_negative2 / run_many_subset_grouped2: SystemPopulation, NodePopulation, NodePopulationSubset, GroupedNodePopulation folded over the calls of any run give the TRUE populations, for EVERY configuration (only Idx), "
+    "every oracle; run_many_rowsums2 (row sums of NaiveBlocking / NodeClassMatrix = populations, even inside the defect regions); NaiveBlocking: event_step_naive_blocking2_partial / run_many_naive_blocking2_partial in the scope without pre-emptive "
+    "resume/restart/resample Schedules and slots, given that end-of-service / reneging candidates are not blocked (assumed per event: named _partial), and naive_blocking_refuted_F02a / _F02b, class_matrix_refuted_F02a: closed witnesses that inside the F-02a / F-02b regions "
+    "the trackers go NEGATIVE ((-1,3) against a true (0,2)). K3 on stage 2: the model's call list (dispatch 45) equals the calls the real engine makes to its tracker, event by event, on every out-of-stage-1 configuration. NodeClassMatrix is also run with a custom class_ordering.")
